@@ -57,6 +57,11 @@ def same_num(a, b, approx):
     return a == b
 
 
+INT_ALPHA = {"i1": [127, -128, 100, 1, -3], "i2": [32767, -32768, 1000, 1, -3], "i4": [2**31 - 1, -2**31, 10**6, 1, -3],
+             "u1": [255, 200, 1, 0, 7], "u2": [65535, 40000, 1, 0, 7], "u4": [2**32 - 1, 2**31, 7, 0, 1]}
+NP_DT = {"f8": "float64", "f4": "float32", "i8": "int64", "i1": "int8", "i2": "int16", "i4": "int32", "u1": "uint8", "u2": "uint16", "u4": "uint32"}
+
+
 def nanops_stream(res, rng, tier):
     from groupby_lib import nanops
     drv = Driver()
@@ -66,24 +71,31 @@ def nanops_stream(res, rng, tier):
     for L in range(1, maxlen + 1):
         reps = 40 if tier == "quick" else 200
         for _ in range(reps):
-            kind = rng.choice(["f8", "f8", "i8", "f4"])
-            vals = [rng.choice(vals_f) if kind != "i8" else rng.choice([1, 2, -3, 4, 0]) for _ in range(L)]
+            kind = rng.choice(["f8", "f8", "i8", "f4", "i1", "i2", "i4", "u1", "u2", "u4"])
+            if kind in INT_ALPHA:
+                # narrow integers over their full range: sums / sums of squares of a piece do not fit the input dtype
+                vals = [rng.choice(INT_ALPHA[kind]) for _ in range(L)]
+            else:
+                vals = [rng.choice(vals_f) if kind != "i8" else rng.choice([1, 2, -3, 4, 0]) for _ in range(L)]
             cases.append((kind, vals))
         cases.append(("f8", [None] * L))
     reqs, meta = [], []
     for kind, vals in cases:
         for name in ["nansum", "nanmean", "nanmin", "nanmax", "nanvar", "nanstd", "count"]:
+            if name in ("nanvar", "nanstd") and kind in ("i4", "u4") and any(abs(v) > 2**20 for v in vals):
+                continue          # the int64 sum of squares itself overflows there: outside the claim
             for nt in ([1, 2, 3, 4, 8] if tier == "quick" else [1, 2, 3, 4, 5, 6, 7, 8]):
                 meta.append((kind, vals, name, nt))
                 if name in ("nansum", "nanmin", "nanmax"):
-                    dom = "f" if kind != "i8" else "i"      # int64: the numba is_null treats -2^63 as null
-                    atoms = [val_to_atom(None if v is None else (Fraction(v) if kind != "i8" else v), "f" if kind != "i8" else "i") for v in vals]
+                    isint = kind not in ("f8", "f4")
+                    dom = "i" if isint else "f"      # integers: the numba is_null treats -2^63 as null
+                    atoms = [val_to_atom(None if v is None else (v if isint else Fraction(v)), dom) for v in vals]
                     reqs.append(sx(["nan_reduce", dom, {"nansum": "sum", "nanmin": "min", "nanmax": "max"}[name], atoms, nt]))
                 else:
                     reqs.append(None)
     resp = iter(drv.ask([r for r in reqs if r is not None]))
     for (kind, vals, name, nt), rq in zip(meta, reqs):
-        dt = {"f8": "float64", "f4": "float32", "i8": "int64"}[kind]
+        dt = NP_DT[kind]
         arr = np.array([np.nan if v is None else v for v in vals], dtype=dt)
         case = dict(helper="nanops", func=name, dtype=dt, values=vals, n_threads=nt)
         res.note_case(repr(case), any(v is None for v in vals) or nt > 1)
@@ -104,7 +116,7 @@ def nanops_stream(res, rng, tier):
                                        what=f"nanops.{name} with n_threads={nt} differs from NumPy"))
         if rq is not None:
             m = next(resp)
-            mv = atom_to_val(m if isinstance(m, str) else m[0], "f" if kind != "i8" else "i")
+            mv = atom_to_val(m if isinstance(m, str) else m[0], "f" if kind in ("f8", "f4") else "i")
             mvf = float("nan") if mv is None else float(mv)
             if not same_num(got, mvf, 1e-5 if dt == "float32" else False):
                 res.model_mismatches.append(dict(case=case, impl=str(got), model=str(mvf)))
